@@ -115,7 +115,9 @@ static void run_case(const std::vector<uint8_t> &tape, rsv_result &res, bool &cr
 			memcpy(infl, &l, 4);
 			memcpy(infl + 4, tape.data(), tape.size());
 		}
+		alarm((unsigned)g_case_timeout + 1); // a case that never returns: exit 97, the wrapper reports the in-flight tape
 		rsv_case(tape.data(), tape.size(), &res);
+		alarm(0);
 		return;
 	}
 	int pfd[2];
@@ -191,6 +193,14 @@ static void run_case(const std::vector<uint8_t> &tape, rsv_result &res, bool &cr
 		snprintf(res.msg, sizeof res.msg, "harness child died (status 0x%x%s) before reporting; stderr tail: %s", st,
 		    WIFSIGNALED(st) ? " signal" : "", tail.c_str());
 	}
+}
+
+static void on_alarm(int)
+{
+	static const char m[] = "RSV hang: in-process case did not return within the case timeout\n";
+	if(write(2, m, sizeof m - 1) < 0) {
+	}
+	_exit(97);
 }
 
 static void write_file(const std::string &path, const void *p, size_t n)
@@ -276,6 +286,8 @@ static int replay(const std::string &path)
 	bool crashed, timedout;
 	run_case(tape, res, crashed, timedout);
 	static const char *vn[] = {"PASS", "FAIL", "DISCARD", "KNOWN", "INCONCLUSIVE"};
+	if(timedout)
+		vn[4] = "TIMEOUT";
 	printf("REPLAY verdict=%s prop=%s nontrivial=%u known=%s\n", vn[res.verdict], res.prop[0] ? res.prop : g_prop.c_str(),
 	    res.nontrivial, res.known);
 	if(res.sample[0])
@@ -316,6 +328,7 @@ int main(int argc, char **argv)
 		}
 	}
 	signal(SIGPIPE, SIG_IGN);
+	signal(SIGALRM, on_alarm);
 	g_errfile = g_faildir + "/child." + std::to_string(getpid()) + ".stderr";
 	if(rsv_setup)
 		rsv_setup(g_prop.c_str());
